@@ -711,7 +711,7 @@ class MemoryMqtt(mqtt_mod.MQTTTransport):
 
 
 async def run_real(path: str, kind: str, fail_connect: bool, wait_first_save: bool, body_raises: bool = False,
-                   subscribe_fails: bool = False) -> dict:
+                   subscribe_fails: bool = False, sessions: int = 1) -> dict:
     """The lifecycle with the real aiofiles thread pool and a built-in transport kind (offline)."""
     v0 = v0_nodes()
     await asyncio.wait_for(Persistence(v0, path).save(), GUARD)
@@ -757,23 +757,28 @@ async def run_real(path: str, kind: str, fail_connect: bool, wait_first_save: bo
     gateway = Gateway(transport, Config(persistence_file=path))
     reg_at_exit = None
     try:
-        async def context():
+        async def context(session: int):
             nonlocal reg_at_exit
+            reg_at_exit = None
             try:
                 async with gateway:
                     obs["entered"] = True
-                    obs["loaded_ok"] = canon(gateway.nodes) == canon(v0)
+                    if session == 0:
+                        obs["loaded_ok"] = canon(gateway.nodes) == canon(v0)
                     if wait_first_save:
                         await asyncio.sleep(0.03)
-                    gateway.nodes[42] = Node(42, 17, "2.0")
+                    gateway.nodes[42 + session] = Node(42 + session, 17, "2.0")
                     reg_at_exit = canon(gateway.nodes)
-                    if body_raises:
+                    if body_raises and session == sessions - 1:
                         raise BodyBoom("body")
             finally:
                 if reg_at_exit is None:
                     reg_at_exit = canon(gateway.nodes)
         try:
-            await asyncio.wait_for(context(), GUARD)
+            # the same Gateway / transport objects entered again after they were left (a reconnect)
+            for session in range(sessions):
+                obs["sessions_entered"] = session + 1
+                await asyncio.wait_for(context(session), GUARD)
         except BaseException as e:  # noqa: BLE001
             exc = e
         await asyncio.sleep(0.02)      # let executor callbacks and closed sockets settle
@@ -924,6 +929,17 @@ def run_c16(ctx) -> Corr:
                     continue
                 oracle(corr, f"lifecycle with transport {kind}", case, obs, {k: v for k, v in faults.items() if v})
                 corr.count("transport:" + kind)
+                if not fail_connect and not wait_first:
+                    # ... and once more with the context left and entered again on the same objects
+                    case2 = {**case, "sessions": 2}
+                    try:
+                        obs2 = await run_real(path, kind, False, wait_first, body_raises, sessions=2)
+                    except Exception as err:  # noqa: BLE001
+                        corr.notes.append(f"two-session run {case2} not executable here: {type(err).__name__}: {err}"[:300])
+                        continue
+                    oracle(corr, f"second session with transport {kind}", case2, obs2, {k: v for k, v in faults.items() if v})
+                    corr.count("transport-two-sessions:" + kind)
+                    corr.case(("real2", kind, body_raises), True, None)
                 corr.case(("real", kind, fail_connect, wait_first, body_raises), True,
                           {"transport": kind, "outcome": obs["outcome"], "leftover": obs["leftover_names"]})
         # a failing subscription is a failing connect for the MQTT kind: "no background task is left behind"
